@@ -34,7 +34,15 @@ func (c *c13) run(tc T2JCase) {
 		}()
 		ct := t2j.NewBinaryConv(conv.Options{Int642String: tc.O.I2s, NoBase64Binary: tc.O.Nob64})
 		cj := j2t.NewBinaryConv(conv.Options{String2Int64: tc.O.I2s, NoBase64Binary: tc.O.Nob64})
-		js, err := ct.Do(context.Background(), c.root, doc)
+		var js []byte
+		var err error
+		if c.cases%2 == 0 {
+			js, err = ct.Do(context.Background(), c.root, doc)
+		} else {
+			buf := make([]byte, 0, 16)
+			err = ct.DoInto(context.Background(), c.root, doc, &buf)
+			js = buf
+		}
 		if err != nil {
 			ev["st1"] = "err"
 			ev["msg"] = err.Error()
